@@ -634,3 +634,198 @@ func harnessC04cleanup() {
 	vCover("cleaned-up")
 	vDone()
 }
+
+// ---------------------------------------------------------------------------------------------- C15: reattach, test mode
+// Test mode: the plugin is served in-process; clients reattach with the configuration Serve hands out, possibly at
+// second hand (a configuration taken from a reattached client). Kill on any of them must leave the server running; it
+// stops only when its context is cancelled.
+func harnessC15testMode() {
+	grpcMode := vChoice(2) == 1
+	pl := &wPlug{}
+	ctx, cancel := context.WithCancel(context.Background())
+	rcCh := make(chan *ReattachConfig, 1)
+	closeCh := make(chan struct{})
+	serve := &ServeConfig{HandshakeConfig: wHandshake0, Plugins: PluginSet{"test": pl}, Logger: newWLogger(),
+		Test: &ServeTestConfig{Context: ctx, ReattachConfigCh: rcCh, CloseCh: closeCh}}
+	if grpcMode {
+		serve.GRPCServer = wNewGRPCServer
+	}
+	returned := false
+	go func() { vDaemon(); Serve(serve); returned = true }()
+	rc := <-rcCh
+	vAssert(rc.Test, "C15: a test-mode server hands out a test-mode reattach configuration")
+	mk := func(r *ReattachConfig) *Client {
+		return NewClient(&ClientConfig{HandshakeConfig: wHandshake0, Plugins: PluginSet{"test": &wPlug{}}, Logger: newWLogger(),
+			AllowedProtocols: []Protocol{ProtocolNetRPC, ProtocolGRPC}, Reattach: r})
+	}
+	use := func(c *Client, what string) {
+		cp, err := c.Client()
+		vAssert(err == nil, "C15: a client built from the reattach configuration connects ("+what+")")
+		raw, err := cp.Dispense("test")
+		vAssert(err == nil, "C15: ... and can dispense from it ("+what+")")
+		_, err = raw.(wStub).Whoami()
+		vAssert(err == nil, "C15: ... and its calls are served ("+what+")")
+	}
+	c1 := mk(rc)
+	use(c1, "first hand")
+	vAssert(c1.Protocol() == ProtocolGRPC == grpcMode, "C15: the reattached client speaks the running plugin's protocol")
+	rc2 := c1.ReattachConfig()
+	vAssert(rc2 != nil && rc2.Addr == rc.Addr && rc2.Pid == rc.Pid && rc2.Protocol == rc.Protocol, "C15: ReattachConfig of a reattached client designates the same plugin")
+	victim := c1
+	if vChoice(2) == 1 {
+		vCover("second-hand")
+		c2 := mk(rc2)
+		use(c2, "second hand")
+		victim = c2
+	}
+	victim.Kill()
+	vSleepUntil(vNow() + 3*sec)
+	select {
+	case <-closeCh:
+		vAssert(false, "C15: in test mode Kill on a reattached client leaves the serving process running")
+	default:
+	}
+	vAssert(!returned, "C15: in test mode Kill on a reattached client leaves the serving process running")
+	c3 := mk(rc)
+	use(c3, "after a Kill on another client")
+	vCover("server-survives-kill")
+	cancel()
+	select {
+	case <-closeCh:
+	case <-time.After(5 * time.Second):
+		vAssert(false, "C15: cancelling the context stops the test-mode server and closes CloseCh")
+	}
+	vCover("stopped-by-context")
+	vDone()
+}
+
+// Real process: a client built from the reattach configuration of a running plugin reaches that same plugin, killing
+// it terminates that plugin, and reattaching afterwards fails with the process-not-found error.
+func harnessC15process() {
+	var o wOpts
+	o.grpc = vChoice(2) == 1
+	o.allowed = 1
+	o.cmd = true
+	w := wSetup(o)
+	c0, p := w.c, w.p
+	cp0, err := c0.Client()
+	vAssume(err == nil)
+	raw0, err := cp0.Dispense("test")
+	vAssume(err == nil)
+	rc := c0.ReattachConfig()
+	vAssert(rc != nil && rc.Pid == p.pid, "C15: the reattach configuration names the running plugin process")
+	c1 := NewClient(&ClientConfig{HandshakeConfig: wHandshake0, Plugins: PluginSet{"test": &wPlug{}}, Logger: newWLogger(),
+		AllowedProtocols: []Protocol{ProtocolNetRPC, ProtocolGRPC}, Reattach: rc})
+	cp1, err := c1.Client()
+	vAssert(err == nil, "C15: a client built from the reattach configuration connects to the running plugin")
+	vAssert(c1.Protocol() == ProtocolGRPC == o.grpc, "C15: ... with the same protocol")
+	raw1, err := cp1.Dispense("test")
+	vAssert(err == nil, "C15: ... and can dispense from it")
+	t1, err := raw1.(wStub).Whoami()
+	vAssert(err == nil, "C15: ... and its calls are served")
+	t0, err := raw0.(wStub).Whoami()
+	vAssert(err == nil, "C15: the first client keeps working while another is attached")
+	if !o.grpc {
+		vAssert(t0 == 1 && t1 == 2, "C15: both clients dispense from the same plugin instance")
+	}
+	vCover("reattached")
+	c1.Kill()
+	vAssert(p.isDead, "C15: killing the reattached client terminates that plugin")
+	vSleepUntil(vNow() + 3*sec)
+	vAssert(c1.Exited(), "C15: the reattached client reports the exit")
+	vAssert(c0.Exited(), "C15: the first client sees the plugin exit")
+	c2 := NewClient(&ClientConfig{HandshakeConfig: wHandshake0, Plugins: PluginSet{"test": &wPlug{}}, Logger: newWLogger(),
+		AllowedProtocols: []Protocol{ProtocolNetRPC, ProtocolGRPC}, Reattach: rc})
+	_, err = c2.Start()
+	vAssert(errors.Is(err, ErrProcessNotFound), "C15: reattaching when nothing is listening fails with the process-not-found error")
+	vCover("reattach-after-death")
+	c0.Kill()
+	vDone()
+}
+
+// ---------------------------------------------------------------------------------------------- C18: nothing left behind
+func harnessC18world() {
+	wTraceOn = vParam("trace") == 1
+	var o wOpts
+	o.grpc = vChoice(2) == 1
+	if o.grpc {
+		o.mux = vChoice(2) == 1
+	}
+	o.allowed = 1
+	o.cmd = vChoice(2) == 1
+	w := wSetup(o)
+	c, p := w.c, w.p
+	cp, err := c.Client()
+	vAssume(err == nil)
+	raw, err := cp.Dispense("test")
+	vAssume(err == nil)
+	_, err = raw.(wStub).Whoami()
+	vAssume(err == nil)
+	vCover("dispensed")
+
+	if o.grpc {
+		hb := cp.(*GRPCClient).broker
+		pbk := w.plugPl.impls[0].gb
+		ctx := context.Background()
+		if vChoice(2) == 1 { // the host serves, the plugin dials and calls back
+			vCover("host-serves")
+			go hb.AcceptAndServe(11, func(opts []grpc.ServerOption) *grpc.Server {
+				s := grpc.NewServer(opts...)
+				wRegisterUser(s, "test", &wImpl{tag: 100})
+				return s
+			})
+			done := make(chan int, 1)
+			go func() {
+				vSetProc(p.id)
+				cc, err := pbk.Dial(11)
+				if err != nil {
+					done <- -1
+					return
+				}
+				t, err := wWhoami(cc, ctx)
+				if err != nil {
+					t = -2
+				}
+				cc.Close()
+				done <- t
+			}()
+			vAssert(<-done == 100, "C18: a brokered callback from the plugin reaches the host's server")
+		}
+		if vChoice(2) == 1 { // the plugin serves, the host dials
+			vCover("plugin-serves")
+			go func() {
+				vSetProc(p.id)
+				pbk.AcceptAndServe(12, func(opts []grpc.ServerOption) *grpc.Server {
+					s := grpc.NewServer(opts...)
+					wRegisterUser(s, "test", &wImpl{tag: 200})
+					return s
+				})
+			}()
+			cc, err := hb.Dial(12)
+			vAssert(err == nil, "C18: the host dials the plugin's brokered server")
+			t, err := wWhoami(cc, ctx)
+			vAssert(err == nil && t == 200, "C18: a brokered call from the host reaches the plugin's server")
+			cc.Close()
+		}
+		if !o.mux && !o.cmd && vChoice(2) == 1 { // a host-side brokered listener (in the runner's socket directory) still open when the client is killed
+			vCover("host-listener-left-open")
+			_, err := hb.Accept(13)
+			vAssert(err == nil, "C18: the host opens a brokered listener")
+		}
+	}
+
+	c.Kill()
+	vAssert(p.isDead && p.killed == 0, "C18: the plugin exits gracefully")
+	vSleepUntil(vNow() + 6*sec)
+	left := ""
+	for f := range wFiles {
+		left += " " + f
+	}
+	if left != "" {
+		vRecord("files-left", left)
+	}
+	vAssert(len(wFiles) == 0, "C18: no socket file or temporary directory created by go-plugin is left after a graceful shutdown")
+	vAssert(vLiveGoroutines() == 0, "C18: no goroutine started by go-plugin for the client remains in the host a few seconds after Kill")
+	vCover("clean")
+	vDone()
+}
